@@ -2,6 +2,7 @@
 from rules import determinism as D
 from rules import merge_rules as MR
 from rules import macro_mir as MM
+from rules import export_rules as E
 
 ASSUMPTIONS = ["BTreeMap/BTreeSet iterate in key order; Vec and syn::Punctuated iterate in insertion order",
                "determinism of rustc, the file system and the environment is out of scope"]
@@ -12,7 +13,7 @@ def run(ctx):
     for fs in ctx.featuresets():
         m = ctx.mir(fs)
         res = [D.hash_iteration_rule(m["ts_rs_macros"], "C13"), D.hash_iteration_rule(m["ts_rs"], "C13", rule="C13.R1-runtime"),
-               D.visit_order_rule(m["ts_rs"], "C13"), D.source_order_rule(m["ts_rs_macros"], "C13"), MR.import_union_rule(m["ts_rs"], "C13", rule="C13.R4"), MM.import_shape_rule(m["ts_rs"], "C13", rule="C13.R5")]
+               D.visit_order_rule(m["ts_rs"], "C13"), D.source_order_rule(m["ts_rs_macros"], "C13"), MR.import_union_rule(m["ts_rs"], "C13", rule="C13.R4"), MM.import_shape_rule(m["ts_rs"], "C13", rule="C13.R5"), E.fs_query_owner_rule(m["ts_rs"], "C13", rule="C13.R8")]
         res[0].floor = 5
         for r in res:
             if fs != "default":
